@@ -68,7 +68,7 @@ def setup_symbolic():
     import supp.name
     supp.scope.UndefinedName = SUndef
     supp.name.UndefinedName = SUndef
-    supp.scope.SourceScope.find_id_loc = lambda self, id, start, shift=0, delimeters=True: start
+    supp.scope.SourceScope.find_id_loc = lambda self, id, start, shift=0, delimeters=True, **kw: start
     supp.scope.builtin_scope.__dict__['names'] = symcont.SymDict(
         [(BKEY, supp.name.RuntimeName(BKEY, len, True))])
 
